@@ -45,6 +45,7 @@ var purePkgs = map[string]string{
 	"sort":          "SearchInts,SearchStrings",
 	"time":          "*", "os": "Getenv,LookupEnv,Getpid,Hostname,Environ,IsNotExist,IsExist,IsPermission",
 	"encoding/hex": "EncodeToString,DecodeString,EncodedLen,DecodedLen",
+	"encoding/binary": "(littleEndian).Uint16,(littleEndian).Uint32,(littleEndian).Uint64,(bigEndian).Uint16,(bigEndian).Uint32,(bigEndian).Uint64,Size",
 	"maps":         "Keys,Values,Clone",
 	"context":      "*", "sync/atomic": "*", "hash/maphash": "*", "crypto/sha256": "Sum256,New",
 	"encoding/base64": "*", "net/url": "*", "regexp": "*", "io": "NopCloser,LimitReader,MultiReader,NewSectionReader,TeeReader,MultiWriter,NewOffsetWriter",
@@ -164,7 +165,27 @@ func (e *Enc) callCommon(c *ssa.CallCommon, site ssa.Instruction, st *State, def
 	}
 	r := e.freshVal("ret_"+sanitize(lastName(key)), retT, false)
 	e.assumeHere(e.typeInvFormula(st, r))
+	e.recordRet(ShortKey(key), e.callOrd[key], r)
 	return r
+}
+
+// recordRet keeps scalar call results as witness terms, so a counterexample says
+// which values the callees returned (label ret.<callee>.<n-th call>[.leaf]).
+func (e *Enc) recordRet(short string, nth int, r *Val) {
+	if r == nil || r.T == nil || len(e.retWit) > 300 {
+		return
+	}
+	lv := typeLeaves(r.T)
+	for i, l := range r.L {
+		if i >= len(lv) || lv[i].Dims > 0 || lv[i].Sort == "F" {
+			continue
+		}
+		label := fmt.Sprintf("ret.%s.%d", short, nth)
+		if len(r.L) > 1 {
+			label += fmt.Sprintf(".%d", i)
+		}
+		e.retWit = append(e.retWit, WitnessTerm{label, l})
+	}
 }
 
 func lastName(key string) string {
@@ -252,16 +273,42 @@ func (e *Enc) applyContract(ctr *Contract, key string, fn *ssa.Function, c *ssa.
 	var r *Val
 	if sig.Results().Len() == 0 {
 		r = &Val{T: sig.Results()}
+	} else if ctr.Pure {
+		// deterministic: the same function of argument values and the heap roots read
+		r = e.pureApp(e.pureName(ctr, key), e.pureArgs(ctr, args, st), retT)
+		e.assumeHere(e.typeInvFormula(st, r))
 	} else {
 		r = e.freshVal("ret_"+sanitize(lastName(key)), retT, false)
 		e.assumeHere(e.typeInvFormula(st, r))
 	}
+	e.recordRet(short, nth, r)
 	for _, en := range ctr.Ensures {
 		ctx := &specCtx{env: env, st: st, old: old, result: r, pkg: ctr.Pkg, resSig: sig.Results()}
 		f := e.evalBoolCtx(en, ctx)
 		e.assumeHere(f)
 	}
 	return r
+}
+
+func (e *Enc) pureName(ctr *Contract, key string) string { return ShortKey(key) }
+
+// pureArgs: argument values plus version tokens of the heap roots the function reads.
+func (e *Enc) pureArgs(ctr *Contract, args []*Val, st *State) []*Val {
+	out := append([]*Val{}, args...)
+	if ctr.HasReads {
+		for _, r := range ctr.Reads {
+			if r == "none" {
+				continue
+			}
+			out = append(out, mathInt(e.verToken(st, r)))
+		}
+		return out
+	}
+	g := st.gver
+	if g == "" {
+		g = "0"
+	}
+	return append(out, mathInt(g))
 }
 
 // havocDesignator: forget the content of the designated location(s).
@@ -272,10 +319,22 @@ func (e *Enc) havocDesignator(m Clause, env map[string]envEntry, st, old *State,
 		e.fail("cannot interpret modifies designator %q", m.Src)
 	}
 	switch d.kind {
+	case "all":
+		e.havocAll(st, "modifies through an interface of unknown dynamic type")
+	case "none":
 	case "loc":
 		for _, a := range e.accesses(d.ptr, d.T) {
 			fresh := e.declare(e.freshName("mod"), arraySort(a.Leaf.Sort, a.Leaf.Dims))
 			e.heapSet(st, a.HK, sStore(e.heapGet(st, a.HK), a.Idx, fresh))
+		}
+		if d.ghosts {
+			sfx := ":" + typeKey(d.ptr.T)
+			for k, hk := range e.hkeys {
+				if strings.HasPrefix(k, typeKey(types.Typ[types.UnsafePointer])+"/ghost_") && strings.HasSuffix(k, sfx) {
+					fresh := e.declare(e.freshName("modg"), "Int")
+					e.heapSet(st, hk, sStore(e.heapGet(st, hk), []string{d.ptr.L[0], d.ptr.L[1]}, fresh))
+				}
+			}
 		}
 		// re-assume type invariants of the new content
 		nv := e.load(st, d.ptr, d.T)
@@ -312,8 +371,9 @@ type designator struct {
 	slice *Val
 	ref   string
 	ghost string
-	hk    *heapKey
-	idx   []string
+	hk     *heapKey
+	idx    []string
+	ghosts bool // also forget the ghost fields of the object
 }
 
 // ---------- frame checking (functions that declare modifies) ----------
@@ -366,6 +426,12 @@ func (e *Enc) frameCheckRef(addr *Val, T types.Type, pos token.Pos, st *State) {
 							eqs = append(eqs, sEq(a.Idx[i], b.Idx[i]))
 						}
 						conds = append(conds, sAnd(eqs...))
+						break
+					}
+					if a.HK.Key == b.HK.Key && len(b.Idx) == 1 && len(a.Idx) == 2 {
+						// element of a designated embedded array
+						found = true
+						conds = append(conds, sEq(a.Idx[0], b.Idx[0]))
 						break
 					}
 				}
